@@ -1,6 +1,18 @@
-(* Properties_C04.v — extended as proofs land (LayoutProofs.v, CursorProofs.v) *)
+(* Properties_C04.v — C04: cursor access is equivalent to random access. *)
 From Coq Require Import ZArith List.
-From Sbepp Require Import Bytes BytesFacts.
-Theorem C04_codec_round_trip : forall be w x, dec be (enc be w x) = (x mod 256 ^ Z.of_nat w)%Z.
-Proof. exact dec_enc. Qed.
-Print Assumptions C04_codec_round_trip.
+From Sbepp Require Import CInt Bytes BytesFacts Msg Layout Wire MsgSpec LayoutProofs.
+Import ListNotations.
+Local Open Scope Z_scope.
+
+(* the generator's independently recomputed cursor offsets agree with the
+   validator's: for every accepted field list the (relative, absolute) pairs
+   satisfy  previous end + rel = offset,  abs = offset + header size, and only
+   the last non-constant field gets the jump-to-block-end flavour *)
+Theorem C04_cursor_offsets_agree : stmt_cursor_offsets_agree.
+Proof. exact cursor_offsets_agree. Qed.
+Print Assumptions C04_cursor_offsets_agree.
+
+(* get_valid_offset never throws after validation, and vice versa *)
+Theorem C04_cursor_rejects_iff : stmt_cursor_rejects_iff.
+Proof. exact cursor_rejects_iff. Qed.
+Print Assumptions C04_cursor_rejects_iff.
